@@ -425,6 +425,9 @@ int main(int argc, char** argv) {
     // long edges on both operands: the products formed when a quad's orientation is taken exceed 2^63 (|coordinates| stay below 2^40)
     mags.push_back({(i64)1 << 28, (i64)1 << 32, 0, 0, "pattern x2^28, path x2^32"});
     mags.push_back({(i64)1 << 31, (i64)1 << 32, -50 * ((i64)1 << 32), 0, "pattern x2^31, path x2^32 centred"});
+    // small operands far from the origin: every quad's orientation and area has to come from coordinate differences
+    mags.push_back({1, 1, ((i64)1 << 39) + 12345, -(((i64)1 << 39) + 54321), "pattern and path unscaled, path translated to (2^39,-2^39)"});
+    mags.push_back({4, 1, -(((i64)1 << 36) + 777), ((i64)1 << 33) + 5, "pattern x4, path unscaled and translated to (-2^36,2^33)"});
     for (auto& mg : mags) {
       if (stop) break;
       bool done = true;
